@@ -59,7 +59,9 @@ macro_rules! impl_vec1view_for_ndarray {
 
             #[inline]
             fn try_as_slice(&self) -> Option<&[T]> {
-                self.as_slice_memory_order()
+                // only a standard-layout view is a slice in logical order: a reversed view is
+                // contiguous in memory but runs backwards
+                self.as_slice()
             }
 
             #[inline]
